@@ -8,8 +8,10 @@ LngDef == LangByName(EnvOr("VERIF_LANG", "LTiny"))
 FixAssets == << [h |-> 1, id |-> 0, name |-> "a", type |-> "Ta", def |-> [d |-> 0], extras |-> 0],
                 [h |-> 2, id |-> 1, name |-> "a:1", type |-> "Ua", def |-> [d |-> 10], extras |-> 0] >>
 FixAssocs == << [h |-> 3, cls |-> 1, l |-> <<1>>, r |-> <<2>>, extras |-> 0] >>
-FixAtk == << [h |-> 4, id |-> 2, name |-> "atk", ep |-> << [a |-> 1, steps |-> <<"s", "zz">>], [a |-> 2, steps |-> <<"d">>] >>],
-             [h |-> 5, id |-> 3, name |-> "atk2", ep |-> << [a |-> 2, steps |-> <<"s">>] >>] >>
+\* entry points: a step name without a node ("zz", or a step whose node was removed before attaching) is listed BEFORE
+\* existing ones on the same asset; two attackers share a:1:d
+FixAtk == << [h |-> 4, id |-> 2, name |-> "atk", ep |-> << [a |-> 1, steps |-> <<"zz", "s">>], [a |-> 2, steps |-> <<"d">>] >>],
+             [h |-> 5, id |-> 3, name |-> "atk2", ep |-> << [a |-> 2, steps |-> <<"d", "s">>] >>] >>
 FixedInit == /\ vAssets = FixAssets /\ vAssocs = FixAssocs /\ vAtk = FixAtk
              /\ vDead = {} /\ vDeadAs = {} /\ vDeadAtk = {} /\ vGone = EmptyMap /\ vNextId = 4 /\ vNextH = 6
              /\ vAct = [op |-> "Init", res |-> "ok"]
@@ -27,6 +29,7 @@ SliceOps(n) == CASE n = "C09" -> {"Generate", "Sibling", "Regenerate", "AddNode"
               [] n = "C09L" -> {"Generate", "AddNode", "Link", "RemoveNode", "DeepCopy", "SaveLoad", "AttachAttackers"}   \* structure after copy / load
               [] n = "C10R" -> {"Generate", "AttachAttackers", "Undo", "RemoveNode", "SaveLoad"}    \* removals before saving
               [] n = "C13L" -> {"Generate", "AttachAttackers", "Undo", "Touch", "SaveLoad", "Prune"}   \* prune loaded graphs / after undo
+              [] n = "C10A" -> {"Generate", "AddNode", "Link", "SaveLoad"}    \* nodes without an asset; a loaded graph saved again
               [] n = "C10F" -> {"Generate", "AddGAttacker", "Compromise", "SaveLoad"}
               [] n = "ALL" -> {"Generate", "Sibling", "Regenerate", "AddNode", "Link", "RemoveNode", "Prune", "Analyse", "AttachAttackers", "AddGAttacker", "RemoveGAttacker", "Compromise", "Undo", "DeepCopy", "SaveLoad", "Touch"}
               [] OTHER -> {"Generate"}
